@@ -82,8 +82,8 @@ type c02Workload struct {
 // a later phase of a workload: while no call is running the named template files are rewritten (with a later
 // modification time), then the phase's goroutines run on the same engine
 type c02Rewrite struct {
-	L int    `json:"l"`
-	D int    `json:"d"`
+	L   int    `json:"l"`
+	D   int    `json:"d"`
 	N   string `json:"n"`
 	S   string `json:"s"`
 	Del bool   `json:"del"`
